@@ -32,6 +32,7 @@ def _flag(v):
 # ------------------------------------------------------------------------------------ events
 class _EventModel:
     HAS_CLEAR = True
+    ASYNC = ("wait",)
 
     def new(self, interp, cls, args, kwargs, fr):
         obj = SObj(cls, {"flag": False}, tag="ev")
@@ -84,10 +85,22 @@ class _LockModel:
     def m___aenter__(self, interp, obj, args, kwargs, fr):
         interp.yield_point(fr, "Lock.acquire")  # may wait for the holder
         interp.traces.setdefault("locks", []).append(("acquire", obj.tag))
+        held = getattr(interp, "held_locks", None)
+        if held is None:
+            held = interp.held_locks = []
+        held.append(obj)
         return None
 
     def m___aexit__(self, interp, obj, args, kwargs, fr):
         interp.traces.setdefault("locks", []).append(("release", obj.tag))
+        held = getattr(interp, "held_locks", None) or []
+        us = getattr(interp, "unit_self", None)
+        if us is not None:
+            interp.prove_monitor(us, fr.where(), "release", only_lock=obj)
+        for i, h in enumerate(held):
+            if h is obj:
+                del held[i]
+                break
         return None
 
 
@@ -170,6 +183,38 @@ class TrioReceiveChannel:
         return None
 
 
+def _bump_live(interp, delta):
+    """ghost accounting for objects that own background tasks (SingleTask): g_live counts the
+    tasks started through the unit's object and not cancelled since"""
+    us = getattr(interp, "unit_self", None)
+    if us is not None and "g_live" in us.fields:
+        cur = us.fields["g_live"]
+        if isinstance(delta, int) and isinstance(cur, int):
+            us.fields["g_live"] = cur + delta
+        else:
+            dz = z3.IntVal(delta) if isinstance(delta, int) else delta
+            cz = z3.IntVal(cur) if isinstance(cur, int) else cur.e
+            us.fields["g_live"] = SymInt(z3.simplify(cz + dz))
+
+
+def _timer_live(interp):
+    """number of live keep-alive timer tasks of the unit's object at the moment its task group is
+    joined (the join waits for them)"""
+    us = getattr(interp, "unit_self", None)
+    it = us.fields.get("idle_task") if us is not None else None
+    if isinstance(it, SObj) and "g_live" in it.fields:
+        return it.fields["g_live"]
+    return 0
+
+
+def _cancel(interp, obj):
+    c = obj.fields.get("cancelled", False)
+    cz = z3.BoolVal(c) if isinstance(c, bool) else c.e
+    _bump_live(interp, z3.If(cz, z3.IntVal(0), z3.IntVal(-1)))
+    obj.fields["cancelled"] = True
+    interp.traces.setdefault("cancelled", []).append(obj)
+
+
 # ------------------------------------------------------------------------------------ task groups
 try:
     from asyncio import TaskGroup as _ATG
@@ -191,14 +236,15 @@ class AsyncioTaskGroup:
         # schedules the coroutine; it does not run before the next suspension of the caller
         coro = args[0]
         interp.traces.setdefault("spawned", []).append(coro)
-        return SObj("asyncio:Task", {"coro": coro}, tag="task")
+        _bump_live(interp, 1)
+        return SObj("asyncio:Task", {"coro": coro, "cancelled": False}, tag="task")
 
     def m___aenter__(self, interp, obj, args, kwargs, fr):
         return obj
 
     def m___aexit__(self, interp, obj, args, kwargs, fr):
+        interp.traces.setdefault("joined", []).append(("join", _timer_live(interp)))
         interp.yield_point(fr, "TaskGroup.__aexit__")  # waits for all children
-        interp.traces.setdefault("joined", []).append(obj.tag)
         return None
 
 
@@ -212,9 +258,40 @@ class TrioNursery:
         return None
 
     def m_start(self, interp, obj, args, kwargs, fr):
-        interp.traces.setdefault("spawned", []).append((args[0],) + tuple(args[1:]))
+        """nursery.start(fn): the child runs until it calls task_status.started(value); start()
+        then returns that value and the rest of the child runs as a task of the nursery.  For a
+        function defined in the code under analysis the part up to started() is executed."""
+        from .sym import Closure
+
+        fn = args[0]
+        interp.traces.setdefault("spawned", []).append((fn,) + tuple(args[1:]))
+        _bump_live(interp, 1)
+        value = None
+        if isinstance(fn, Closure):
+            ts = SObj("trio:TaskStatus", {}, tag="task_status")
+            try:
+                interp.call_value(fn, list(args[1:]), {"task_status": ts}, fr, awaited=True)
+            except _Started as st:
+                value = st.value
+            else:
+                raise mk_exc(RuntimeError, "child exited without calling task_status.started()", where=fr.where())
+        else:
+            value = interp.make_symbolic("opaque", "started")
         interp.yield_point(fr, "nursery.start")
-        return interp.make_symbolic("opaque", "started")
+        return value
+
+
+class _Started(Exception):
+    """internal: task_status.started(value) was reached in the inlined prefix of a child"""
+
+    def __init__(self, value):
+        self.value = value
+
+
+@register(name="trio:TaskStatus")
+class TrioTaskStatus:
+    def m_started(self, interp, obj, args, kwargs, fr):
+        raise _Started(args[0] if args else None)
 
 
 @register(name="trio:NurseryManager")
@@ -223,8 +300,8 @@ class TrioNurseryManager:
         return SObj("trio:Nursery", {}, tag="nursery")
 
     def m___aexit__(self, interp, obj, args, kwargs, fr):
+        interp.traces.setdefault("joined", []).append(("join", _timer_live(interp)))
         interp.yield_point(fr, "nursery.__aexit__")
-        interp.traces.setdefault("joined", []).append("nursery")
         return None
 
 
@@ -286,10 +363,10 @@ def _real(v):
 @register(name="asyncio:Task")
 class AsyncioTask:
     def symbolic(self, interp, name):
-        return SObj("asyncio:Task", {"coro": None}, tag=name)
+        return SObj("asyncio:Task", {"coro": None, "cancelled": SymBool(z3.Bool(interp.ctx.fresh_name(name + ".cancelled")))}, tag=name)
 
     def m_cancel(self, interp, obj, args, kwargs, fr):
-        interp.traces.setdefault("cancelled", []).append(obj)
+        _cancel(interp, obj)
         return True
 
     def m___await__(self, interp, obj, args, kwargs, fr):
@@ -309,13 +386,13 @@ class TrioCancelScope:
     real_class = trio.CancelScope
 
     def new(self, interp, cls, args, kwargs, fr):
-        return SObj(trio.CancelScope, {"shield": kwargs.get("shield", False), "deadline": None}, tag="scope")
+        return SObj(trio.CancelScope, {"shield": kwargs.get("shield", False), "deadline": None, "cancelled": False}, tag="scope")
 
     def symbolic(self, interp, name):
-        return SObj(trio.CancelScope, {"shield": False, "deadline": None}, tag=name)
+        return SObj(trio.CancelScope, {"shield": False, "deadline": None, "cancelled": SymBool(z3.Bool(interp.ctx.fresh_name(name + ".cancelled")))}, tag=name)
 
     def m_cancel(self, interp, obj, args, kwargs, fr):
-        interp.traces.setdefault("cancelled", []).append(obj)
+        _cancel(interp, obj)
         return None
 
     def m___enter__(self, interp, obj, args, kwargs, fr):
@@ -338,6 +415,10 @@ def _timeouts(interp):
         exactly t0 + timeout, it is cancelled and TimeoutError raised.  timeout None = no limit."""
         coro = a[0]
         timeout = a[1] if len(a) > 1 else k.get("timeout")
+        from .sym import SymOpt
+
+        if isinstance(timeout, SymOpt):
+            timeout = None if interp.ctx.branch(timeout.is_none, f"timeout is None@{fr.line}") else timeout.value
         t0 = now(interp)
         interp.deadline = None if timeout is None else t0 + _real(timeout)
         if timeout is not None and interp.ctx.choose(2, f"wait_for@{fr.line}", ["completes", "TimeoutError"]) == 1:
